@@ -1,12 +1,13 @@
 CONSTANTS
   Slates = {"s1"}
-  Kinds = {"send"}
+  Kinds = {"inv"}
   UseCancel = FALSE
   ApiModes = {FALSE}
-  UseSecond = FALSE
-  DropDelete = FALSE
+  UseSecond = TRUE
+  DropDelete = TRUE
   TestRng = FALSE
 SPECIFICATION Spec
-INVARIANT Inv_AtRestStrict
+INVARIANT Inv_Consumed
+INVARIANT Inv_SignsOnce
 VIEW View
 CHECK_DEADLOCK FALSE
